@@ -37,6 +37,7 @@ def run(ctx):
     ctx.guard(rule_e, ctx, ix)
     ctx.guard(rule_f, ctx, ix)
     ctx.guard(rule_g, ctx, ix)
+    ctx.guard(rule_h, ctx, ix)
 
 
 def _guard_update_external(src):
@@ -641,3 +642,52 @@ def rule_g(ctx, ix):
                                   % (g.construct, unparse(node_)[:80]), where=where(g, node_))
     if n < 1:
         raise AnalysisError('C03.g: no removal from _components found in glue.core.data')
+
+
+def rule_h(ctx, ix):
+    """The removal handlers of the link manager drop every link that touches a removed attribute, and they ask the link itself
+    (`cid in link`).  The answer has to come from what the link computes with: a single link from its inputs and its output, a
+    collection of links from the links it holds (LinkAligned is built with no declared identifiers at all)."""
+    R = 'C03.h'
+    ctx.describe(R, 'membership of an identifier in a link is decided from what the link computes with (a collection: from its links)', floor=2)
+    lm = ix.cls('glue.core.link_manager.LinkManager')
+    for hname in ('_component_removed', '_data_removed'):
+        h = lm.resolve_func(hname)
+        if h is None:
+            raise AnalysisError('LinkManager.%s vanished' % hname)
+    cl = ix.cls('glue.core.component_link.ComponentLink')
+    f = cl.resolve_func('__contains__')
+    if f is None:
+        raise AnalysisError('ComponentLink.__contains__ vanished')
+    me = f.self_name
+    reads = {n.attr for n in ast.walk(f.node) if isinstance(n, ast.Attribute) and isinstance(n.value, ast.Name) and n.value.id == me}
+    reads |= {c.func.attr for c in calls_in(f.node) if isinstance(c.func, ast.Attribute) and isinstance(c.func.value, ast.Name) and c.func.value.id == me}
+    ins = ({'_from', 'get_from_ids'} & reads) and ({'_to', 'get_to_id'} & reads)
+    ctx.ob(R, f.construct, 'a link contains its inputs and its output', bool(ins),
+           detail='ComponentLink.__contains__ reads only %s: a link whose %s is removed stays registered' % (
+               sorted(reads), 'output' if ({'_from', 'get_from_ids'} & reads) else 'input'), where=f.where)
+    lc = ix.cls('glue.core.link_helpers.LinkCollection')
+    g = lc.resolve_func('__contains__')
+    if g is None:
+        raise AnalysisError('LinkCollection.__contains__ vanished')
+    me = g.self_name
+    it = lc.resolve_func('__iter__')
+    through_iter = it is not None and any(isinstance(n, ast.Attribute) and n.attr == '_links' for n in ast.walk(it.node))
+    sources = ('%s._links' % me,) + ((me,) if through_iter else ())
+    asked = False
+    loops = [(n.target, n.iter) for n in ast.walk(g.node) if isinstance(n, ast.For)] + \
+            [(c.target, c.iter) for n in ast.walk(g.node) if isinstance(n, (ast.GeneratorExp, ast.ListComp, ast.SetComp)) for c in n.generators]
+    for tgt, itx in loops:
+        src = unparse(itx)
+        if src in sources or src in tuple('%s(%s)' % (w, s_) for w in ('list', 'tuple', 'iter') for s_ in sources):
+            for n in ast.walk(g.node):
+                if isinstance(n, ast.Compare) and len(n.ops) == 1 and isinstance(n.ops[0], ast.In) and unparse(n.comparators[0]) == unparse(tgt) \
+                        and unparse(n.left) == g.params[1]:
+                    asked = True
+    ctx.idiom(R, g.construct, 'a collection contains what one of its links contains', accepted=asked, absent=not asked and not any(
+        isinstance(n, ast.Attribute) and n.attr == '_links' for n in ast.walk(g.node)) and not any(
+        isinstance(n_, (ast.For, ast.comprehension)) and unparse(n_.iter) == me for n_ in ast.walk(g.node)),
+        detail_absent='LinkCollection.__contains__ no longer asks its links: collections whose links use identifiers other than the '
+                      'declared cids1 / cids2 (LinkAligned declares none) are never found by LinkManager._component_removed / '
+                      '_data_removed, so their links survive the removal of the dataset they refer to',
+        shape='`%s`' % ' ; '.join(norm(st) for st in body_stmts(g.node))[:200], where=g.where)
